@@ -41,6 +41,98 @@ fn wd(n: i64) -> i64 { (n + 4).rem_euclid(7) + 1 }
 fn iso_start(y: i64) -> i64 { let j = days_from_civil(y, 1, 4); j - (wd(j) + 5) % 7 }
 fn iso_year_of(n: i64) -> i64 { let y = civil_from_days(n).0; if n < iso_start(y) { y - 1 } else if n >= iso_start(y + 1) { y + 1 } else { y } }
 
+
+// ------------------------------------------------------------------------------------------------
+// independent picture semantics for the native parse / format searches (written from C04 / C05 / C18)
+// ------------------------------------------------------------------------------------------------
+#[derive(Clone, Copy, PartialEq, Debug)]
+enum Tok { Yyyy, Yy, Mm, Mon, Month, Dd, Ddd, D, Dy, Day, Hh24, Hh, Mi, Ss, Ff3, Ff6, Am, PmDot, W, Ww }
+const TOKS: [(Tok, &str); 20] = [(Tok::Yyyy, "YYYY"), (Tok::Yy, "YY"), (Tok::Mm, "MM"), (Tok::Mon, "MON"), (Tok::Month, "MONTH"), (Tok::Dd, "DD"), (Tok::Ddd, "DDD"),
+    (Tok::D, "D"), (Tok::Dy, "DY"), (Tok::Day, "DAY"), (Tok::Hh24, "HH24"), (Tok::Hh, "HH"), (Tok::Mi, "MI"), (Tok::Ss, "SS"), (Tok::Ff3, "FF3"), (Tok::Ff6, "FF6"),
+    (Tok::Am, "AM"), (Tok::PmDot, "P.M."), (Tok::W, "W"), (Tok::Ww, "WW")];
+const MONTHS: [&str; 12] = ["JANUARY", "FEBRUARY", "MARCH", "APRIL", "MAY", "JUNE", "JULY", "AUGUST", "SEPTEMBER", "OCTOBER", "NOVEMBER", "DECEMBER"];
+const DAYS: [&str; 7] = ["SUNDAY", "MONDAY", "TUESDAY", "WEDNESDAY", "THURSDAY", "FRIDAY", "SATURDAY"];
+fn tok_is_date(t: Tok) -> bool { matches!(t, Tok::Yyyy | Tok::Yy | Tok::Mm | Tok::Mon | Tok::Month | Tok::Dd | Tok::Ddd | Tok::D | Tok::Dy | Tok::Day | Tok::W | Tok::Ww) }
+fn doy_of(y: i64, m: i64, d: i64) -> i64 { days_from_civil(y, m, d) - days_from_civil(y, 1, 1) + 1 }
+
+/// the text one token stands for, for the value (y, m, d, usec-of-day)
+fn render_tok(t: Tok, y: i64, m: i64, d: i64, tod: i64) -> String {
+    let (h, mi, sc, us) = (tod / 3_600_000_000, tod / 60_000_000 % 60, tod / 1_000_000 % 60, tod % 1_000_000);
+    let w = wd(days_from_civil(y, m, d));
+    match t {
+        Tok::Yyyy => format!("{:04}", y), Tok::Yy => format!("{:02}", y % 100), Tok::Mm => format!("{:02}", m),
+        Tok::Mon => MONTHS[m as usize - 1][..3].to_string(), Tok::Month => MONTHS[m as usize - 1].to_string(),
+        Tok::Dd => format!("{:02}", d), Tok::Ddd => format!("{:03}", doy_of(y, m, d)), Tok::D => format!("{}", w),
+        Tok::Dy => DAYS[w as usize - 1][..3].to_string(), Tok::Day => DAYS[w as usize - 1].to_string(),
+        Tok::Hh24 => format!("{:02}", h), Tok::Hh => format!("{:02}", if h % 12 == 0 { 12 } else { h % 12 }), Tok::Mi => format!("{:02}", mi), Tok::Ss => format!("{:02}", sc),
+        Tok::Ff3 => format!("{:03}", us / 1000), Tok::Ff6 => format!("{:06}", us),
+        Tok::Am => (if h < 12 { "AM" } else { "PM" }).to_string(), Tok::PmDot => (if h < 12 { "A.M." } else { "P.M." }).to_string(),
+        Tok::W => format!("{}", (d - 1) / 7 + 1), Tok::Ww => format!("{:02}", (doy_of(y, m, d) - 1) / 7 + 1),
+    }
+}
+
+/// what a blank-separated text denotes under a blank-separated picture (None = must be rejected); (has_date, has_time) = type flags
+fn ref_parse(toks: &[Tok], segs: &[String], has_date: bool, has_time: bool, now_y: i64, now_m: i64) -> Option<(i64, i64, i64, i64)> {
+    let (mut y, mut m, mut d): (Option<i64>, Option<i64>, Option<i64>) = (None, None, None);
+    let (mut h24, mut h12, mut mi, mut sc, mut us): (Option<i64>, Option<i64>, Option<i64>, Option<i64>, Option<i64>) = (None, None, None, None, None);
+    let (mut pm, mut doy, mut dow): (Option<bool>, Option<i64>, Option<i64>) = (None, None, None);
+    let num = |s: &str, max: usize| -> Option<i64> { if s.is_empty() || s.len() > max || !s.bytes().all(|b| b.is_ascii_digit()) { None } else { s.parse().ok() } };
+    for (t, s) in toks.iter().zip(segs.iter()) {
+        if tok_is_date(*t) != true && !has_time { return None; }
+        if tok_is_date(*t) && !has_date { return None; }
+        match t {
+            Tok::Yyyy => { if y.is_some() { return None; } y = Some(num(s, 4)?); }
+            Tok::Yy => { if y.is_some() { return None; } let v = num(s, 4)?; y = Some(if s.len() > 2 { v } else { now_y - now_y % 100 + v }); }
+            Tok::Mm => { if m.is_some() { return None; } m = Some(num(s, 2)?); }
+            Tok::Mon | Tok::Month => { if m.is_some() { return None; }
+                let up = s.to_ascii_uppercase();
+                let k = MONTHS.iter().position(|n| *n == up || n[..3] == up)?; m = Some(k as i64 + 1); }
+            Tok::Dd => { if d.is_some() { return None; } d = Some(num(s, 2)?); }
+            Tok::Ddd => { if doy.is_some() { return None; } doy = Some(num(s, 3)?); }
+            Tok::D => { if dow.is_some() { return None; } let v = num(s, 1)?; if !(1..=7).contains(&v) { return None; } dow = Some(v); }
+            Tok::Dy | Tok::Day => { if dow.is_some() { return None; }
+                let up = s.to_ascii_uppercase();
+                let k = DAYS.iter().position(|n| if *t == Tok::Dy { n[..3] == up } else { *n == up })?; dow = Some(k as i64 + 1); }
+            Tok::Hh24 => { if h24.is_some() || h12.is_some() || pm.is_some() { return None; } h24 = Some(num(s, 2)?); }
+            Tok::Hh => { if h24.is_some() || h12.is_some() { return None; } let v = num(s, 2)?; if !(1..=12).contains(&v) { return None; } h12 = Some(v); }
+            Tok::Mi => { if mi.is_some() { return None; } mi = Some(num(s, 2)?); }
+            Tok::Ss => { if sc.is_some() { return None; } sc = Some(num(s, 2)?); }
+            Tok::Ff3 => { if us.is_some() { return None; } let v = num(s, 3)?; us = Some(v * 10i64.pow(6 - s.len() as u32)); }
+            Tok::Ff6 => { if us.is_some() { return None; } let v = num(s, 6)?; us = Some(v * 10i64.pow(6 - s.len() as u32)); }
+            Tok::Am | Tok::PmDot => { if pm.is_some() || h24.is_some() { return None; }
+                let up = s.to_ascii_uppercase();
+                let (a, p) = if *t == Tok::Am { ("AM", "PM") } else { ("A.M.", "P.M.") };
+                pm = Some(if up == p { true } else if up == a { false } else { return None; }); }
+            Tok::W | Tok::Ww => return None,     // output-only codes
+        }
+    }
+    let hour = match (h24, h12, pm) { (Some(h), _, _) => h, (None, Some(h), Some(p)) => if p { if h == 12 { 12 } else { h + 12 } } else { if h == 12 { 0 } else { h } },
+        (None, Some(h), None) => h, (None, None, Some(p)) => if p { 12 } else { 0 }, (None, None, None) => 0 };
+    let (mi, sc, us) = (mi.unwrap_or(0), sc.unwrap_or(0), us.unwrap_or(0));
+    if has_time && (hour > 23 || mi > 59 || sc > 59) { return None; }
+    let tod = hour * 3_600_000_000 + mi * 60_000_000 + sc * 1_000_000 + us;
+    if !has_date { return Some((0, 0, 0, tod)); }
+    let yy = y.unwrap_or(now_y);
+    let mut mm = m.unwrap_or(now_m);
+    let mut dd = d.unwrap_or(1);
+    if let Some(n) = doy {
+        if !(1..=9999).contains(&yy) { return None; }
+        if n < 1 || n > if leap(yy) { 366 } else { 365 } { return None; }
+        let (_, m2, d2) = civil_from_days(days_from_civil(yy, 1, 1) + n - 1);
+        if m.is_some() && m2 != mm { return None; }
+        if d.is_some() && d2 != dd { return None; }
+        mm = m2; dd = d2;
+    }
+    if !date_ok(yy, mm, dd) { return None; }
+    if let Some(w) = dow { if wd(days_from_civil(yy, mm, dd)) != w { return None; } }
+    Some((yy, mm, dd, tod))
+}
+
+fn show<T: std::fmt::Display>(r: Result<T, sqldatetime::Error>) -> String {
+    use std::fmt::Write;
+    match r { Err(_) => "Err(..)".to_string(), Ok(v) => { let mut s = String::new(); if write!(s, "{}", v).is_ok() { format!("Ok({:?})", s) } else { "Err(..)".to_string() } } }
+}
+
 struct Found { input: String, expected: String, actual: String }
 struct Outcome { found: Option<Found>, evaluations: u64, exhaustive: bool, domain: &'static str }
 
@@ -418,6 +510,92 @@ fn search(oracle: &str, seed: u64) -> Outcome {
                 }
                 None
             }
+            // ------------------------------------------------ C05 / C06 / C18: pictures of 1..3 tokens x rendered and perturbed texts
+            "parse_grid" => {
+                domain = "every blank-separated picture of 1..=3 tokens from 18 input tokens x texts rendered from 7 values (+ one out-of-range / mismatching component each), parsed as Date, Time and Timestamp; clock = the crate's own Date::now()";
+                exhaustive = false;
+                let (ny, nm, _) = { let (y, m, d) = Date::now().unwrap().extract(); (y as i64, m as i64, d as i64) };
+                let input_toks: Vec<(Tok, &str)> = TOKS.iter().cloned().filter(|(t, _)| !matches!(t, Tok::W | Tok::Ww)).collect();
+                let vals: [(i64, i64, i64, i64); 7] = [(2024, 2, 29, 0), (1900, 4, 10, 86_399_999_999), (2023, 12, 31, 86_399_999_999), (ny, nm, 1, 43_200_000_000), (1999, 6, 21, 13 * 3_600_000_000 + 5 * 60_000_000 + 9_000_000 + 123_456),
+                    (2020, 12, 31, 12 * 3_600_000_000 + 59 * 60_000_000), (1, 1, 1, 3_600_000_000)];
+                let n = input_toks.len();
+                let mut pics: Vec<Vec<usize>> = Vec::new();
+                for a in 0..n { pics.push(vec![a]); for b in 0..n { pics.push(vec![a, b]); for c in 0..n { pics.push(vec![a, b, c]); } } }
+                for pic in &pics {
+                    let toks: Vec<Tok> = pic.iter().map(|&i| input_toks[i].0).collect();
+                    let picture: String = pic.iter().map(|&i| input_toks[i].1).collect::<Vec<_>>().join(" ");
+                    for (vi, &(y, m, d, tod)) in vals.iter().enumerate() {
+                        let base: Vec<String> = toks.iter().map(|&t| render_tok(t, y, m, d, tod)).collect();
+                        let mut texts: Vec<Vec<String>> = vec![base.clone()];
+                        if vi < 3 {
+                            // one perturbed component per position
+                            for k in 0..toks.len() {
+                                let y4 = format!("{:04}", y % 100);          // a zero-padded FULL year under a YY code
+                                let bads: Vec<&str> = match toks[k] { Tok::Mm => vec!["13", "00"], Tok::Dd => vec!["32", "00"], Tok::Ddd => vec!["366", "000"], Tok::Hh24 => vec!["24"],
+                                    Tok::Hh => vec!["13", "00"], Tok::Mi | Tok::Ss => vec!["60"], Tok::D => vec!["8", "0"],
+                                    Tok::Dy => vec!["MON"], Tok::Day => vec!["MONDAY"], Tok::Mon => vec!["JUNE"], Tok::Yyyy => vec!["0000"], Tok::Yy => vec![y4.as_str()], _ => continue };
+                                for bad in bads { let mut t2 = base.clone(); t2[k] = bad.to_string(); texts.push(t2); }
+                            }
+                        }
+                        for segs in &texts {
+                            let text = segs.join(" ");
+                            for ty in 0..3 {
+                                n_eval += 1;
+                                let (hd, ht) = match ty { 0 => (true, false), 1 => (false, true), _ => (true, true) };
+                                let want = ref_parse(&toks, segs, hd, ht, ny, nm);
+                                let (exp, act, call) = match ty {
+                                    0 => (want.map(|(y, m, d, _)| format!("Ok(days={})", days_from_civil(y, m, d))).unwrap_or("Err(..)".into()),
+                                          match Date::parse(&text, &picture) { Ok(v) => format!("Ok(days={})", v.days()), Err(_) => "Err(..)".into() }, "Date"),
+                                    1 => (want.map(|(_, _, _, t)| format!("Ok(usecs={})", t)).unwrap_or("Err(..)".into()),
+                                          match Time::parse(&text, &picture) { Ok(v) => format!("Ok(usecs={})", v.usecs()), Err(_) => "Err(..)".into() }, "Time"),
+                                    _ => (want.map(|(y, m, d, t)| format!("Ok(usecs={})", days_from_civil(y, m, d) * DAY + t)).unwrap_or("Err(..)".into()),
+                                          match Timestamp::parse(&text, &picture) { Ok(v) => format!("Ok(usecs={})", v.usecs()), Err(_) => "Err(..)".into() }, "Timestamp"),
+                                };
+                                if exp != act { fail!(format!("{}::parse({:?}, {:?})  [clock {}-{:02}]", call, text, picture, ny, nm), exp, act); }
+                            }
+                        }
+                    }
+                }
+                None
+            }
+            // ------------------------------------------------ C04: every token on its own and in pairs
+            "format_grid" => {
+                domain = "every picture of 1..=2 tokens from 20 tokens x 8 values, formatted as Date, Time, Timestamp and IntervalDT (applicability only for the interval)";
+                exhaustive = false;
+                let vals: [(i64, i64, i64, i64); 8] = [(2024, 2, 29, 0), (2023, 12, 31, 86_399_999_999), (2021, 8, 22, 43_200_000_000), (1999, 6, 21, 13 * 3_600_000_000 + 5 * 60_000_000 + 9_000_000 + 123_456),
+                    (2020, 12, 31, 12 * 3_600_000_000 + 59 * 60_000_000), (1, 1, 1, 3_600_000_000), (9999, 12, 31, 11 * 3_600_000_000 + 59 * 60_000_000 + 59_999_999), (1969, 7, 20, 1)];
+                let n = TOKS.len();
+                let mut pics: Vec<Vec<usize>> = Vec::new();
+                for a in 0..n { pics.push(vec![a]); for b in 0..n { pics.push(vec![a, b]); } }
+                for pic in &pics {
+                    let toks: Vec<Tok> = pic.iter().map(|&i| TOKS[i].0).collect();
+                    let picture: String = pic.iter().map(|&i| TOKS[i].1).collect::<Vec<_>>().join(" ");
+                    for &(y, m, d, tod) in &vals {
+                        let text: String = toks.iter().map(|&t| render_tok(t, y, m, d, tod)).collect::<Vec<_>>().join(" ");
+                        let all_date = toks.iter().all(|&t| tok_is_date(t));
+                        let all_time = toks.iter().all(|&t| !tok_is_date(t));
+                        let dv = Date::try_from_ymd(y as i32, m as u32, d as u32).unwrap();
+                        let tv = Time::try_from_usecs(tod).unwrap();
+                        let tsv = dv.and_time(tv);
+                        n_eval += 4;
+                        let e0 = if all_date { format!("Ok({:?})", text) } else { "Err(..)".to_string() };
+                        let a0 = show(dv.format(&picture));
+                        if e0 != a0 { fail!(format!("Date({:04}-{:02}-{:02}).format({:?})", y, m, d, picture), e0, a0); }
+                        let e1 = if all_time { format!("Ok({:?})", text) } else { "Err(..)".to_string() };
+                        let a1 = show(tv.format(&picture));
+                        if e1 != a1 { fail!(format!("Time(usecs={}).format({:?})", tod, picture), e1, a1); }
+                        let e2 = format!("Ok({:?})", text);
+                        let a2 = show(tsv.format(&picture));
+                        if e2 != a2 { fail!(format!("Timestamp({:04}-{:02}-{:02} + {} us).format({:?})", y, m, d, tod, picture), e2, a2); }
+                        // day-to-second interval: DD HH24 MI SS FF apply; 12-hour and meridian codes and every date code but DD do not
+                        let ok_dt = toks.iter().all(|&t| matches!(t, Tok::Dd | Tok::Hh24 | Tok::Mi | Tok::Ss | Tok::Ff3 | Tok::Ff6));
+                        let iv = IntervalDT::try_from_usecs(tod).unwrap();
+                        let a3 = show(iv.format(&picture));
+                        if ok_dt != a3.starts_with("Ok") { fail!(format!("IntervalDT(usecs={}).format({:?})", tod, picture), (if ok_dt { "Ok(..)" } else { "Err(..)" }).to_string(), a3); }
+                    }
+                }
+                None
+            }
             "naive_carry" => {
                 domain = "texts with a 7-digit fraction at the carry boundary x field extremes, parsed as IntervalDT / Time / Timestamp";
                 exhaustive = false;
@@ -463,7 +641,7 @@ fn esc(s: &str) -> String { s.replace('\\', "\\\\").replace('"', "\\\"") }
 fn main() {
     let args: Vec<String> = std::env::args().collect();
     if args.len() >= 2 && args[1] == "list" {
-        println!("date_extract date_from_ymd date_from_days date_add_sub_days date_day_of_week date_add_months ts_add_months last_day_of_month date_trunc date_round ts_trunc ts_round od_trunc od_round ts_split time_tuple time_add_interval interval_ctor od_from_timestamp od_add_days ts_add_days");
+        println!("date_extract date_from_ymd date_from_days date_add_sub_days date_day_of_week date_add_months ts_add_months last_day_of_month date_trunc date_round ts_trunc ts_round od_trunc od_round ts_split time_tuple time_add_interval interval_ctor od_from_timestamp od_add_days ts_add_days naive_carry parse_grid format_grid");
         return;
     }
     if args.len() >= 3 && args[1] == "search" {
